@@ -202,6 +202,9 @@ class NumericArray(list):
     subtype = elems[0]
     if subtype not in NumericArray.SUBTYPE:
       raise gfapy.TypeError("Subtype {} unknown".format(subtype))
+    if not valid and len(elems) < 2:
+      raise gfapy.FormatError("Numeric array string contains no values\n"+
+        "String: {}".format(string))
     if subtype != "f":
       range = NumericArray.SUBTYPE_RANGE[subtype]
     def gen():
